@@ -60,6 +60,7 @@ Qed.
 Definition ty_int : nat := 1.
 
 Definition sops (fixed : bool) : atom_ops satom := {|
+  keyable := fun a => match a with SBytes _ => false | _ => true end;
   aeqb := satom_eqb;
   raw := fun a => match a with SBytes _ | SNamed _ => false | _ => true end;
   cmp := fun a => match a with SBytes _ => false | _ => true end;
@@ -68,6 +69,21 @@ Definition sops (fixed : bool) : atom_ops satom := {|
   fix4 := fixed;
   guide := None
 |}.
+
+(** With patches/C03-fix-5 (keys compared by content) a [[]byte] scalar can be a key. *)
+Definition sops5 (fixed : bool) : atom_ops satom := {|
+  keyable := fun _ => true;
+  aeqb := satom_eqb;
+  raw := fun a => match a with SBytes _ | SNamed _ => false | _ => true end;
+  cmp := fun a => match a with SBytes _ => false | _ => true end;
+  num := fun z => SNum ty_int (DInt z);
+  as_num := fun a => match a with SNum _ (DInt z) => Some z | _ => None end;
+  fix4 := fixed;
+  guide := None
+|}.
+
+Lemma sops5_laws fixed : atom_laws (sops5 fixed).
+Proof. constructor; [exact satom_eqb_eq | reflexivity | reflexivity]. Qed.
 
 Lemma sops_laws fixed : atom_laws (sops fixed).
 Proof. constructor; [exact satom_eqb_eq | reflexivity | reflexivity]. Qed.
@@ -94,6 +110,7 @@ Proof.
 Qed.
 
 Definition wops (fixed : bool) : atom_ops watom := {|
+  keyable := fun _ => true;
   aeqb := watom_eqb;
   raw := fun _ => true;
   cmp := fun _ => true;
@@ -115,6 +132,9 @@ Definition ser (a : satom) : watom :=
   | SBytes b64 => WStr b64
   | SNamed s => WStr s
   end.
+
+Lemma ser_hom5 f1 f2 : atom_hom (sops5 f1) (wops f2) ser.
+Proof. constructor; [reflexivity | intros [b|ty [z|m k]|s|s|s]; reflexivity]. Qed.
 
 Lemma ser_hom f1 f2 : atom_hom (sops f1) (wops f2) ser.
 Proof. constructor; [reflexivity | intros [b|t [z|m k]|s|s|s]; reflexivity]. Qed.
@@ -144,6 +164,7 @@ Definition tlookup (t : table) (o n : list (val satom)) : option (list (option n
   end.
 
 Definition sops_g (fixed : bool) (t : table) : atom_ops satom := {|
+  keyable := fun a => match a with SBytes _ => false | _ => true end;
   aeqb := satom_eqb;
   raw := fun a => match a with SBytes _ | SNamed _ => false | _ => true end;
   cmp := fun a => match a with SBytes _ => false | _ => true end;
